@@ -19,8 +19,8 @@ Local Open Scope N_scope.
    waiter released, name and pid unregistered, in no group and no monitor list, in no child set and
    with no children, no lifecycle event emitted, no callback other than pre_start ever entered,
    mailbox dropped, every accepted call's reply port closed, further sends refused. *)
-Theorem C08_clean_failure : forall ls nm sp loc scr f holder sst scl,
-  let s := exec ls (init nm sp loc scr f holder sst scl) in
+Theorem C08_clean_failure : forall ls nm sp loc scr f holder sst scl rem,
+  let s := exec ls (init nm sp loc scr f holder sst scl rem) in
   pc s = PDone -> residue_free s = true /\ check_C08 (observe s) = true.
 Proof. exact clean_failure. Qed.
 
@@ -41,7 +41,7 @@ Theorem C08_failure_enters_cleanup : forall s,
   /\ (pc s = P3 -> local_ s = false -> sup s <> None -> sup_link_ok s = false -> pc (step LLinkSup s) = C1)
   /\ (pc s = P1 -> status s = 0 -> local_ s = true -> sup s <> None ->
       sup_link_ok (set_status 1 s) = false -> pc (step LBegin s) = C1)
-  /\ (pc s = P0 -> named s = true -> name_other s <> None -> step LNew s = set_pc PClash s).
+  /\ (pc s = P0 -> remote s = false -> named s = true -> name_other s <> None -> step LNew s = set_pc PClash s).
 Proof. exact failure_enters_cleanup. Qed.
 
 (* (3) and the cleanup, being synchronous code of the guard, completes: six more steps reach PDone
@@ -52,7 +52,7 @@ Proof. exact cleanup_completes. Qed.
 
 (* (4) a name clash changes nothing about the existing holder and creates nothing *)
 Theorem C08_clash_inert : forall ls h sp loc scr f sst scl,
-  let s := exec ls (init true sp loc scr f (Some h) sst scl) in
+  let s := exec ls (init true sp loc scr f (Some h) sst scl false) in
   Forall (fun l => forall b, l <> LReuseName b) ls ->
   name_other s = Some h
   /\ exists_cell s = false
@@ -63,25 +63,39 @@ Proof. exact clash_creates_nothing. Qed.
 (* the executable oracles are sound for the model: check_C08 accepts every observation of a finished
    failed spawn (second conjunct of C08_clean_failure), check_clash every observation of a refused one *)
 Theorem C08_clash_oracle_sound : forall ls h sp loc scr f sst scl,
-  let s := exec ls (init true sp loc scr f (Some h) sst scl) in
+  let s := exec ls (init true sp loc scr f (Some h) sst scl false) in
   Forall (fun l => forall b, l <> LReuseName b) ls ->
   check_clash (observe s) = true.
 Proof. exact clash_oracle_sound. Qed.
 
 (* no step of a failing spawn removes or replaces another actor's registration of the name *)
-Theorem C08_holder_untouched : forall ls0 nm sp loc scr f holder sst scl l,
-  let s := exec ls0 (init nm sp loc scr f holder sst scl) in
+Theorem C08_holder_untouched : forall ls0 nm sp loc scr f holder sst scl rem l,
+  let s := exec ls0 (init nm sp loc scr f holder sst scl rem) in
   name_other (step l s) = name_other s \/ (exists b, l = LReuseName b).
 Proof.
-  intros ls0 nm sp loc scr f holder sst scl l s. apply holder_untouched. apply inv_exec, inv_init.
+  intros ls0 nm sp loc scr f holder sst scl rem l s. apply holder_untouched. apply inv_exec, inv_init.
 Qed.
 
+(* in particular for a cell with a REMOTE id (spawn_linked_remote carrying the name of a live local actor):
+   it never touches the registry, neither on construction nor in its cleanup; whatever the failure cause,
+   at PDone nothing of it is left and the local holder still owns the name *)
+Theorem C08_holder_kept : forall ls nm sp loc scr f h sst scl rem,
+  Forall (fun l => forall b, l <> LReuseName b) ls ->
+  name_other (exec ls (init nm sp loc scr f (Some h) sst scl rem)) = Some h.
+Proof. exact holder_kept. Qed.
+
+Theorem C08_failed_spawn_keeps_holder : forall ls nm sp loc scr f h sst scl rem,
+  let s := exec ls (init nm sp loc scr f (Some h) sst scl rem) in
+  Forall (fun l => forall b, l <> LReuseName b) ls ->
+  pc s = PDone -> check_C08_holder (observe s) = true.
+Proof. exact remote_failure_oracle_sound. Qed.
+
 (* ---- statement pins ---- *)
-Check (C08_clean_failure : forall ls nm sp loc scr f holder sst scl,
-  let s := exec ls (init nm sp loc scr f holder sst scl) in
+Check (C08_clean_failure : forall ls nm sp loc scr f holder sst scl rem,
+  let s := exec ls (init nm sp loc scr f holder sst scl rem) in
   pc s = PDone -> residue_free s = true /\ check_C08 (observe s) = true).
 Check (C08_clash_inert : forall ls h sp loc scr f sst scl,
-  let s := exec ls (init true sp loc scr f (Some h) sst scl) in
+  let s := exec ls (init true sp loc scr f (Some h) sst scl false) in
   Forall (fun l => forall b, l <> LReuseName b) ls ->
   name_other s = Some h /\ exists_cell s = false
   /\ name_mine s = false /\ pid_mine s = false /\ groups s = [] /\ mons s = [] /\ my_sup s = None
@@ -95,55 +109,62 @@ Definition ex_run : list label :=
   [LNew; LBegin; LEff; LEff; LEff; LSend (Some 5); LWait 1; LJoin 3; LEff; LEff; LEff; LEff;
    LClean; LClean; LClean; LClean; LClean; LClean].
 Example ex_before_failure :
-  let s := exec (firstn 12 ex_run) (init true (Some 4) false ex_script RErr None 2 false) in
+  let s := exec (firstn 12 ex_run) (init true (Some 4) false ex_script RErr None 2 false false) in
   pc s = C1 /\ name_mine s = true /\ pid_mine s = true /\ groups s = [3; 1] /\ mons s = [2]
   /\ my_sup s = Some 8 /\ my_children s = Some [7] /\ mailbox s = [Some 5] /\ waiters s = [(1, false)]
   /\ residue_free s = false.
 Proof. vm_compute. repeat split; reflexivity. Qed.
 Example ex_after_failure :
-  let s := exec ex_run (init true (Some 4) false ex_script RErr None 2 false) in
+  let s := exec ex_run (init true (Some 4) false ex_script RErr None 2 false false) in
   pc s = PDone /\ residue_free s = true /\ killed s = [7] /\ closed_calls s = [5] /\ waiters s = [(1, true)].
 Proof. vm_compute. repeat split; reflexivity. Qed.
 (* cut by dropping the future at the second await point; cut by a Kill; supervisor stopping *)
 Example ex_abort_at_gate :
   let s := exec [LNew; LBegin; LEff; LEff; LEff; LEff; LEff; LAbort; LClean; LClean; LClean; LClean; LClean; LClean]
-                (init false None false ex_script ROk None 2 false) in
+                (init false None false ex_script ROk None 2 false false) in
   pc s = PDone /\ residue_free s = true.
 Proof. vm_compute. split; reflexivity. Qed.
 Example ex_killed :
   let s := exec [LNew; LBegin; LEff; LEff; LEff; LKill; LSeeKill; LClean; LClean; LClean; LClean; LClean; LClean]
-                (init false None false ex_script ROk None 2 false) in
+                (init false None false ex_script ROk None 2 false false) in
   pc s = PDone /\ residue_free s = true /\ killed s = [7].
 Proof. vm_compute. repeat split; reflexivity. Qed.
 Example ex_supervisor_stopping :
   let s := exec [LNew; LBegin; LSupStatus 5; LEff; LLinkSup; LClean; LClean; LClean; LClean; LClean; LClean]
-                (init false (Some 4) false [] ROk None 2 false) in
+                (init false (Some 4) false [] ROk None 2 false false) in
   pc s = PDone /\ residue_free s = true.
 Proof. vm_compute. split; reflexivity. Qed.
 Example ex_success_is_not_failure :
   let s := exec [LNew; LBegin; LEff; LLinkSup; LClean; LClean]
-                (init false (Some 4) false [] ROk None 2 false) in
+                (init false (Some 4) false [] ROk None 2 false false) in
   pc s = PRun /\ my_sup s = Some 4 /\ ran s = 1%nat.
 Proof. vm_compute. repeat split; reflexivity. Qed.
 (* thread-local order: linked before pre_start; the future is dropped while the request is queued *)
 Example ex_thread_local_cancelled_while_queued :
-  let s0 := exec [LNew; LBegin; LWait 1; LSend (Some 2)] (init true (Some 4) true ex_script ROk None 2 false) in
+  let s0 := exec [LNew; LBegin; LWait 1; LSend (Some 2)] (init true (Some 4) true ex_script ROk None 2 false false) in
   let s := exec [LAbort; LClean; LClean; LClean; LClean; LClean; LClean] s0 in
   pc s0 = P2 /\ my_sup s0 = Some 4 /\ name_mine s0 = true /\ at_gate s0 = true
   /\ pc s = PDone /\ residue_free s = true /\ closed_calls s = [2].
 Proof. vm_compute. repeat split; reflexivity. Qed.
 Example ex_thread_local_supervisor_exits_while_queued :
   let s := exec [LNew; LBegin; LSupTake; LSupStatus 6; LSupClose; LSeeKill; LClean; LClean; LClean; LClean; LClean; LClean]
-                (init false (Some 4) true ex_script ROk None 2 false) in
+                (init false (Some 4) true ex_script ROk None 2 false false) in
   pc s = PDone /\ residue_free s = true.
 Proof. vm_compute. split; reflexivity. Qed.
+(* a remote-id cell named like a live local actor fails in pre_start: the holder keeps the name *)
+Example ex_remote_named_like_holder :
+  let s := exec [LNew; LBegin; LEff; LEff; LEff; LEff; LEff; LEff; LEff; LClean; LClean; LClean; LClean; LClean; LClean]
+                (init true (Some 4) false ex_script RErr (Some 9) 2 false true) in
+  pc s = PDone /\ name_other s = Some 9 /\ name_mine s = false /\ pid_mine s = false
+  /\ check_C08_holder (observe s) = true.
+Proof. vm_compute. repeat split; reflexivity. Qed.
 Example ex_clash :
   let s := exec [LNew; LBegin; LEff; LSend None; LJoin 1; LAbort; LClean]
-                (init true None false ex_script ROk (Some 9) 2 false) in
+                (init true None false ex_script ROk (Some 9) 2 false false) in
   pc s = PClash /\ name_other s = Some 9 /\ check_clash (observe s) = true.
 Proof. vm_compute. repeat split; reflexivity. Qed.
 Example ex_name_reusable :
-  let s := exec (ex_run ++ [LReuseName 9]) (init true (Some 4) false ex_script RErr None 2 false) in
+  let s := exec (ex_run ++ [LReuseName 9]) (init true (Some 4) false ex_script RErr None 2 false false) in
   name_other s = Some 9.
 Proof. vm_compute. reflexivity. Qed.
 
@@ -154,3 +175,5 @@ Print Assumptions C08_cleanup_completes.
 Print Assumptions C08_clash_inert.
 Print Assumptions C08_holder_untouched.
 Print Assumptions C08_clash_oracle_sound.
+Print Assumptions C08_holder_kept.
+Print Assumptions C08_failed_spawn_keeps_holder.
